@@ -356,8 +356,11 @@ class Gen(object):
       lines.append('%s%s = %s' % (sp, x, self.expr(env)))
       return env
     if k == 'effect':
-      form = self.choice(['t(%s)', 'o.m(%s)', 'l.append(%s)', 'o.inc()', 'ext1(%s)'] if env.has_o else ['t(%s)', 'ext1(%s)'])
-      lines.append(sp + (form % self.expr(env) if '%s' in form else form))
+      form = self.choice(['t(%s)', 'o.m(%s)', 'l.append(%s)', 'o.inc()', 'ext1(%s)', 'print(%s, %s, file=SINK)']
+                         if env.has_o else ['t(%s)', 'ext1(%s)', 'print(%s, file=SINK)'])
+      if form.startswith('print'):
+        self.note('print_call')
+      lines.append(sp + (form % tuple(self.expr(env) for _ in range(form.count('%s'))) if '%s' in form else form))
       return env
     if k == 'setattr':
       if cfg['pure']:
